@@ -6,9 +6,9 @@
    of all read events, read off the observations. *)
 From EN Require Import Lib.Bytes
                        Frame.Framer Frame.ReadUntil Frame.BufReadUntil Stream.Consumer Stream.SpecDecode Stream.Endpoint Stream.EndpointSpec
-                       Conc.SockReader Conc.SockReaderSpec Conc.BlockRecv Conc.SockEndpoint Conc.SockFlow
+                       Conc.SockReader Conc.SockReaderSpec Conc.BlockRecv Conc.SockEndpoint Conc.SockFlow Conc.SockTls
                        Proofs.C10_refute Proofs.C10_inv Proofs.C10_obs Proofs.C10_queue Proofs.C10_blocking
-                       Proofs.C10_endpoint Proofs.C10_endpoint_inst Proofs.C10_reexport Proofs.C10_flow.
+                       Proofs.C10_endpoint Proofs.C10_endpoint_inst Proofs.C10_reexport Proofs.C10_flow Proofs.C10_tls.
 
 (* F4 (defect of the unchanged tree): recv_into(8); read event "hello"; task.cancel(); next iteration; wake-up
    (CancelledError); read event " world"; recv(64) returns " world" -- "hello" is gone, no error is reported. *)
@@ -181,6 +181,47 @@ Example endpoint_cancel_example :
                 ESock (LData [10; 99; 10]%N); ERecvPacket; ESock LTurn; ESock LWake])
   = [RPkt [97; 98]%N].
 Proof. vm_compute. reflexivity. Qed.
+
+(* TLS layer (Conc/SockTls.v: the retry loop of AsyncTLSStreamTransport.recv / recv_into / the handshake over the
+   repaired protocol, as the code is now: one await, transport.recv_into; no checkpoint between SSLObject.read() and the
+   return).  For ANY SSL object (abstract state machine: read / BIO write / BIO eof) and every sequence of recv calls,
+   read events, EOF, connection loss, cancellation requests, wake-ups and loop iterations: every ciphertext byte the
+   protocol returned has been written into the read BIO, every plaintext byte SSLObject.read() gave out has been returned
+   to a caller, and underneath nothing the loop delivered is lost -- a cancelled TLS receive loses nothing. *)
+Theorem tls_recv_no_loss :
+  forall (S : Type) (ssl_read : S -> nat -> S * sslans) (bio_write : S -> bytes -> S) (bio_eof : S -> S) (rbuf : nat)
+         (ssl : S) (ls : list tlabel),
+    let ts := trun ssl_read bio_write bio_eof rbuf (tinit ssl) ls in
+    tfed ts = returned (tk ts) /\
+    plain_out ts = ttaken ts /\
+    (exists tail, returned (tk ts) ++ parked (tk ts) ++ tail = delivered (tk ts) /\
+                  (tail <> [] -> lost_exc (tk ts) <> None)).
+Proof. exact (@tls_recv_no_loss_proof). Qed.
+Print Assumptions tls_recv_no_loss.
+
+(* with a record decoder: if the SSL object implements a monotone decoding [plain_of] of the ciphertext fed to it (invariant
+   I ssl fed taken: what read() has given out so far is a prefix of plain_of fed), then whatever was cancelled, the
+   plaintext the callers got is a prefix of the decoding of everything the loop delivered *)
+Theorem tls_plaintext_prefix :
+  forall (S : Type) (ssl_read : S -> nat -> S * sslans) (bio_write : S -> bytes -> S) (bio_eof : S -> S) (rbuf : nat)
+         (plain_of : bytes -> bytes) (I : S -> bytes -> bytes -> Prop),
+    (forall f x, exists y, plain_of (f ++ x) = plain_of f ++ y) ->
+    (forall s f t d, I s f t -> I (bio_write s d) (f ++ d) t) ->
+    (forall s f t, I s f t -> I (bio_eof s) f t) ->
+    (forall s f t n s' a, I s f t -> ssl_read s n = (s', a) ->
+        match a with SOk p => I s' f (t ++ p) | _ => I s' f t end) ->
+    (forall s f t, I s f t -> exists rest, plain_of f = t ++ rest) ->
+    forall ssl ls, I ssl [] [] ->
+      let ts := trun ssl_read bio_write bio_eof rbuf (tinit ssl) ls in
+      exists rest, plain_of (delivered (tk ts)) = plain_out ts ++ rest.
+Proof. exact (@tls_plaintext_prefix_proof). Qed.
+Print Assumptions tls_plaintext_prefix.
+
+(* the hypotheses are satisfiable: the identity record layer *)
+Example tls_identity_layer : forall rbuf ls,
+  let ts := trun id_read id_write id_eof rbuf (tinit ([], false)) ls in
+  exists rest, delivered (tk ts) = plain_out ts ++ rest.
+Proof. exact identity_layer_prefix. Qed.
 
 (* Read flow control (Conc/SockFlow.v: finite buffer that the fix may grow, pause_reading() at the high-water mark,
    resume_reading() at the low-water mark, a paused transport delivers nothing), for any marks low < high <= max_size and
